@@ -29,6 +29,10 @@ def cells(tier):
         if op in ('roStoryAppend', 'roStoryInsert', 'roStoryReplace', 'EAStoryInsert', 'EAStoryReplace', 'roReplace',
                   'roStorySend', 'EAStoryInsert-end', 'roStoryInsert-last', 'roStoryInsert-dup', 'EAStoryInsert-dup'):
             edits = STORY_EDITS
+        elif op in ('roReplace-skeleton', 'roStoryAppend-blank-id'):
+            edits = ('none', 'item-delete', 'item-insert', 'metadata', 'ro-delete')
+        elif op == 'roStoryReplace-skeleton':
+            edits = ('none', 'item-insert', 'story-send', 'metadata')
         elif op == 'roMetadataReplace':
             edits = ('none', 'metadata', 'ro-delete', 'story-delete')
         elif op == 'roDelete':
